@@ -19,7 +19,9 @@ EXTENDS Issuance
 VKeyTypes == {"rsa1024", "rsa2048", "rsa3072", "p224", "p256", "p384", "p521", "ed25519", "dsa1024", "dsa2048"}
 VAlgs == SigAlgs \ {"MD2-RSA"}
 (* algorithms a key type can produce genuine signatures for *)
-CanSign(kt, a) == a \in VAlgs /\ AlgFamily(a) = Family(kt)
+CanSign(kt, a) == /\ a \in VAlgs /\ AlgFamily(a) = Family(kt)
+                  \* a 1024-bit modulus has no room for SHA-512 with a 64-byte salt (RFC 8017, 9.1.1)
+                  /\ ~(kt = "rsa1024" /\ a = "SHA512-RSAPSS")
 
 (* effective triple under the dispatch reading: scheme from the key, hash and (for RSA keys)
    padding from the label *)
@@ -33,7 +35,9 @@ Mangled(s, how) == [s EXCEPT !.wrap = how]       \* any byte-level change of a s
 (* mutations: target x class.  "none" = the unmutated tuple *)
 Targets == {"none", "msg", "sig", "key", "alg"}
 MsgMuts == {"flip-first", "flip-middle", "flip-last", "truncate", "extend", "empty"}
-SigMuts == {"flip-first", "flip-middle", "flip-last", "truncate", "extend", "zero", "empty", "reencode"}
+SigMuts == {"flip-first", "flip-middle", "flip-last", "truncate", "extend", "zero", "empty", "reencode",
+            "resalt",     \* a genuine PSS signature with another salt length than the algorithm identifier fixes
+            "badpad"}     \* the RSA private operation on an encoded message with one padding byte changed
 KeyMuts == {"other-same-type", "other-type"}
 AlgMuts == SigAlgs \cup {"bogus"}          \* the claimed algorithm replaced by this one
 MutsOf(target) == CASE target = "none" -> {"none"} [] target = "msg" -> MsgMuts [] target = "sig" -> SigMuts
@@ -44,6 +48,8 @@ DERWrapped(kt) == Family(kt) \in {"ecdsa", "dsa"}
 Applicable(c) == /\ CanSign(c.kt, c.alg)
                  /\ c.mut \in MutsOf(c.target)
                  /\ (c.mut = "reencode" => DERWrapped(c.kt))
+                 /\ (c.mut = "resalt" => AlgPad(c.alg) = "pss")
+                 /\ (c.mut = "badpad" => AlgPad(c.alg) = "pkcs1v15")
                  /\ (c.target = "alg" => c.mut # c.alg)
 
 (* the verification tuple a case presents: genuine = sig(K, Eff(alg), M) *)
